@@ -487,6 +487,56 @@ theorem detect_norm : ∀ (n : Nat) (x : T), opens x = n → wf x none → ∀ f
       obtain ⟨x', hw', ho', ht', hd'⟩ := ih x1 (by omega) hw1 fuel
       exact ⟨x', hw', ho', ht'.trans ht1, by rw [← hd', ← hd]; rfl⟩
 
+/-! ### the same inside a context: text before and after the term -/
+
+/-- a prefix the scan runs through without stopping, reaching `st1` -/
+structure ScanPre (pre : Str) (st1 : St) : Prop where
+  run : ∀ cs, scan '(' ')' (pre ++ cs) 0 {} = scan '(' ')' cs pre.length st1
+  inv : st1.modes.length ≤ st1.lm.length
+
+/-- the text around the term is balanced whenever the term is -/
+def BalCtx (pre post : Str) : Prop :=
+  ∀ y : Str, (∀ (cs : Str) (n : Int), Validate.parCount '(' ')' (y ++ cs) n = Validate.parCount '(' ')' cs n) →
+    Validate.parCount '(' ')' (pre ++ y ++ post) 0 = 0
+
+theorem detect_step_ctx (pre post : Str) (st1 : St) (hp : ScanPre pre st1) (hb : BalCtx pre post)
+    (x : T) (hw : wf x none) (L j : Nat) (hv : viol x pre.length = some (L, j)) (fuel : Nat) :
+    ∃ x', step x = some x' ∧
+      detect '(' ')' (fuel+1) (pre ++ rT x ++ post) = detect '(' ')' fuel (pre ++ rT x' ++ post) := by
+  have hc := wf_none_closed x hw
+  have hpc := hb (rT x) (parCount_rT x none hw)
+  have hsc : scan '(' ')' (pre ++ rT x ++ post) 0 {} = .rewrite L j := by
+    rw [List.append_assoc, hp.run]
+    exact (((scan_wf x none hw).1 hc) post pre.length st1 hp.inv).2 L j hv
+  obtain ⟨x', hx', he⟩ := rewrite_is_step x pre post L j hv
+  refine ⟨x', hx', ?_⟩
+  rw [detect]
+  simp only [hpc, hsc]
+  simp only [ne_eq, not_true_eq_false, if_false]
+  rw [he]
+
+theorem detect_norm_ctx (pre post : Str) (st1 : St) (hp : ScanPre pre st1) (hb : BalCtx pre post) :
+    ∀ (n : Nat) (x : T), opens x = n → wf x none → ∀ fuel,
+    ∃ x', wf x' none ∧ opens x' = 0 ∧ toE x' = toE x
+      ∧ detect '(' ')' (fuel + n) (pre ++ rT x ++ post) = detect '(' ')' fuel (pre ++ rT x' ++ post) := by
+  intro n
+  induction n with
+  | zero => intro x h0 hw fuel; exact ⟨x, hw, h0, rfl, rfl⟩
+  | succ n ih =>
+    intro x hn hw fuel
+    have hc := wf_none_closed x hw
+    cases hv : viol x pre.length with
+    | none =>
+      have := viol_none_opens x none pre.length hw hv
+      simp [hc] at this
+      omega
+    | some v =>
+      obtain ⟨L, j⟩ := v
+      obtain ⟨x1, hx1, hd⟩ := detect_step_ctx pre post st1 hp hb x hw L j hv (fuel + n)
+      obtain ⟨hw1, ht1, ho1, _⟩ := step_preserves x none x1 hw hx1
+      obtain ⟨x', hw', ho', ht', hd'⟩ := ih x1 (by omega) hw1 fuel
+      exact ⟨x', hw', ho', ht'.trans ht1, by rw [← hd', ← hd]; rfl⟩
+
 theorem opens_le_length (x : T) : opens x ≤ (rT x).length := by
   induction x with
   | leaf t => simp [opens]
